@@ -246,11 +246,15 @@ impl<T: Socket + ?Sized> Worker<T> {
             }
 
             window.empty()?;
-            self.send_packet(&Packet::Ack(block_number))?;
+            let acknowledged = self.send_packet(&Packet::Ack(block_number));
 
+            // The file is complete once the final block has been written: a final
+            // ACK that cannot be delivered (the peer has already left, so a repeated
+            // copy is refused) must not turn the upload into a failure.
             if size < self.blk_size {
                 break;
             };
+            acknowledged?;
         }
 
         Ok(())
